@@ -38,6 +38,11 @@ Definition mtu_or_default (c : pcfg) : N :=
   match c_mtu c with Some m => if m =? 0 then 1500 else m | None => 1500 end.
 Definition opt0 (x : option N) : N := match x with Some v => v | None => 0 end.
 
+(* the 32-byte base header as it stands on the wire *)
+Definition header_bytes (esrc edst rsrc rdst : mac) (seq opcode tos : N) : list byte :=
+  mac_bytes edst ++ mac_bytes esrc ++ be16 lltdEtherType ++ [1; tos; 0; opcode]
+  ++ mac_bytes rdst ++ mac_bytes rsrc ++ be16 seq.
+
 (* ---- lltdWire.c ---- *)
 (* setLltdHeaderEx: field stores in the order of the C; the reserved byte is not written *)
 Definition set_header_ex (buf : list byte) (esrc edst rsrc rdst : mac) (seq opcode tos : N) : option (list byte) :=
